@@ -88,7 +88,7 @@ Definition apply_event (slow : string -> nat -> Z -> Z) (s : sim) (t : Z) (e : e
       let c' := step c (CTick t) in
       match c_tl c with
       | j :: _ =>
-          if j_next j <=? t
+          if negb (c_susp c) && (j_next j <=? t)
           then upd_flags s c' ((j_id j, slow (j_id j) (fires_so_far c (j_id j)) t) :: s_pend s) (s_block s) false (c_susp c)
           else upd_flags s c' (s_pend s) (s_block s) false false
       | [] => upd_flags s c' (s_pend s) (s_block s) false false
@@ -167,26 +167,29 @@ Definition obs_fires (o : json) : list (string * Z) :=
     tick; a firing much later than the tick makes the rest ambiguous. *)
 Inductive fcmp := FSame | FLate | FDiff (why : string).
 
-Fixpoint cmp_times (m o : list Z) : fcmp :=
+(** [T] is the instant of the snapshot: a firing the model expects less than
+    100 ms before it may simply not have started yet. *)
+Fixpoint cmp_times (T : Z) (m o : list Z) : fcmp :=
   match m, o with
   | [], [] => FSame
   | tm :: m', to :: o' =>
       if to <? tm then FDiff "a callback ran before the model's tick"
-      else match cmp_times m' o' with
+      else match cmp_times T m' o' with
            | FSame => if tm + op_late <? to then FLate else FSame
            | r => r
            end
   | [], _ :: _ => FDiff "the implementation fired more often than the model"
-  | _ :: _, [] => FDiff "the model fired more often than the implementation"
+  | tm :: _, [] => if T - 100 * ms <? tm then FLate
+                   else FDiff "the model fired more often than the implementation"
   end.
 
-Fixpoint cmp_fires (ids : list string) (m o : list (string * Z)) : fcmp :=
+Fixpoint cmp_fires (T : Z) (ids : list string) (m o : list (string * Z)) : fcmp :=
   match ids with
   | [] => FSame
   | id :: r =>
-      match cmp_times (times_of id m) (times_of id o) with
-      | FSame => cmp_fires r m o
-      | FLate => match cmp_fires r m o with FDiff w => FDiff w | _ => FLate end
+      match cmp_times T (times_of id m) (times_of id o) with
+      | FSame => cmp_fires T r m o
+      | FLate => match cmp_fires T r m o with FDiff w => FDiff w | _ => FLate end
       | FDiff w => FDiff (String.append (String.append id ": ") w)
       end
   end.
@@ -202,7 +205,7 @@ Record res := mkRes {
 }.
 
 Definition inflight_has (c : cron) (id : string) : bool :=
-  existsb (fun j => String.eqb (j_id j) id) (c_inflight c).
+  existsb (fun p => String.eqb (j_id (fst p)) id) (c_inflight c).
 Definition tl_has (c : cron) (id : string) : bool :=
   existsb (fun j => String.eqb (j_id j) id) (c_tl c).
 Definition head_is (c : cron) (id : string) : bool :=
@@ -237,7 +240,7 @@ Definition replay_op (slow : string -> nat -> Z -> Z) (start pause : Z) (k : Z) 
       let c' := step c (CAdd id next recurring tb) in
       let infl := inflight_has c id in
       cont (upd_flags s c' (s_pend s) (s_block s) infl false)
-           [if negb okm then (if tl_has c id then "add-limit-drops-job" else "add-limit")
+           [if negb okm then (if tl_has c id then "add-limit-replace-refused" else "add-limit")
             else if tl_has c id then "add-replace" else "add-new";
             if recurring then "add-rec" else if String.eqb (jfS "kind" o) "far" then "add-far" else "add-soon";
             if infl then "add-inflight" else "";
@@ -247,7 +250,7 @@ Definition replay_op (slow : string -> nat -> Z -> Z) (start pause : Z) (k : Z) 
     let fm := rem_found c id in
     if negb blind && negb (Bool.eqb fm (jfB "found" o)) then fail "Rem: found differs" (JBool fm)
     else
-      let c' := step c (CRem id) in
+      let c' := step c (CRem id tb) in
       let infl := inflight_has c id in
       cont (upd_flags s c' (s_pend s) (s_block s) infl false)
            [if fm then "rem-found" else "rem-missing";
@@ -263,22 +266,28 @@ Definition replay_op (slow : string -> nat -> Z -> Z) (start pause : Z) (k : Z) 
   else if String.eqb op "snap" then
     if blind then cont s [] else
     let otl := dec_tl (jfL "tl" o) in
+    let mf := model_fires c in
+    let of_ := obs_fires o in
+    let ids := dedup_str (map fst mf ++ map fst of_)%list in
+    let fc := cmp_fires tb ids mf of_ in
+    (* a callback that started late makes everything after it uncertain,
+       the timeline of this snapshot included *)
+    match fc with
+    | FLate => mkRes s None (amb + 1) ("snap" :: r_feats r) true
+    | _ =>
     if negb (list_eqb job_eqb (canon_tl (c_tl c)) (canon_tl otl)) then fail "snapshot: Timeline differs" (enc_tl (c_tl c))
     else
-      let mf := model_fires c in
-      let of_ := obs_fires o in
-      let ids := dedup_str (map fst mf ++ map fst of_)%list in
-      match cmp_fires ids mf of_ with
+      match fc with
       | FDiff w => fail (String.append "snapshot: fire log differs: " w)
                         (JArr (map (fun p => JObj [("id", JStr (fst p)); ("t", JNum (snd p))]) mf))
-      | FLate => mkRes s None (amb + 1) ("snap" :: r_feats r) true
-      | FSame =>
+      | _ =>
           cont s ["snap";
                   if existsb (fun f => negb (f_rec f)) (c_fires c) then "fire-oneshot" else "";
                   if existsb f_rec (c_fires c) then "fire-rec" else "";
                   if s_stall s then "stall" else "";
                   if s_suspfire s then "fire-while-suspended" else ""]
       end
+    end
   else fail (String.append "unknown op " op) JNull
   end.
 
@@ -461,19 +470,9 @@ Definition check_cron (c : json) : json :=
   let r := replay (slow_of tbl ends) (jfZ "start" c) pause 0 (mkRes s0 None 0 [] false) script in
   let s := r_sim r in
   let j := judge pause script in
-  let kf := match j with
-            | None => []
-            | Some (op, _) =>
-                if String.eqb op "removed_never_fires" || has_prefix "recurring" op
-                   || String.eqb op "no_early_fire" then
-                  (if s_infl s then ["D26"] else [])
-                else if String.eqb op "oneshot_fires" then
-                  ((if s_stall s then ["D38"] else []) ++ (if s_infl s then ["D26"] else []))%list
-                else if String.eqb op "refused_add_no_effect" then ["D50"]
-                else if String.eqb op "suspend_no_fire" then
-                  (if s_suspfire s then ["D49"] else [])
-                else []
-            end in
+  (* D26, D38, D49 and D50 are repaired: a failure of their clauses is a
+     violation, not a known finding (the flags stay as features) *)
+  let kf : list string := [] in
   let feats := filter (fun f => negb (String.eqb f "")) (dedup_str (r_feats r)) in
   JObj [("ok", JBool (match r_fail r with None => true | Some _ => false end));
         ("at", match r_fail r with Some (k, _, _) => JNum k | None => JNull end);
